@@ -40,7 +40,7 @@ T = {
  'c13-4': ('C13', 'invoke site sees a base-class instance first, then an overriding subclass', 'ops/InlineCache::get_invoke_cache/post', ''),
  'c20-1': ('C20', 'a full sweep that retains an already promoted object', 'kani:gc/o20_4p_promoted_then_full_exact', 'caught after the promoted-then-full harness was added'),
  'c20-2': ('C20', 'a live list with len != cap (ObjectHandle::size from len)', 'kani:heap/o20_1_alloc_drop_list', 'caught after the list alloc/drop harness was added'),
- 'c20-3': ('C20', 'an Instance being freed (dealloc with ObjHeader layout)', None, 'instance construction needs Class (hashbrown): CBMC ran out of memory; NOT decided'),
+ 'c20-3': ('C20', 'an Instance being freed (dealloc with ObjHeader layout)', 'kani:heap/o20_1_alloc_drop_instance_block', 'missed while the harness built a real Class (hashbrown: CBMC out of memory); caught after the instance block was built class-free (the header only stores the class pointer)'),
  'c20-4': ('C20', 'a unique vector with spare capacity (size from len)', 'kani:heap/o20_3_unique_vector_handle', 'caught after the handle harness + RawUniqueVectorHandle re-export were added'),
  # ---- third wave -------------------------------------------------------------------------------------------------------
  'c17-1': ('C17', 'selected-symbol import from a module with a private declaration before the exported one', 'module/Module::get_exported_symbol_by_name/post', 'first run UNDECIDED (exact-text R4 rewrite, ModClass stub lacked get_field_index); caught after R4g (generic Option-combinator rewrite) and the stub method'),
